@@ -1,5 +1,6 @@
 import OrsoVerif.Model.PyVal
 import OrsoVerif.Model.Profile
+import OrsoVerif.Model.ProfileTime
 /-! Driver glue for C15: decode a typed column, run the profiler model, encode the profile. -/
 namespace Drv.C15
 open Profile
@@ -91,8 +92,37 @@ def encOptCore : Option Core → List PyVal
   | none => [.none]
   | some c => [encCore c]
 
+def decUnit : String → Option TUnit
+  | "W" => some .W | "D" => some .D | "h" => some .h | "m" => some .m | "s" => some .s
+  | "ms" => some .ms | "us" => some .us | "ns" => some .ns | _ => none
+
+/-- A temporal cell as the harness describes the Python object: `["c", y, mo, d, h, mi, s, us, offset minutes]`
+(date / datetime), `["u", unit, ticks]` (numpy.datetime64), `["p", unit, ticks]` (pandas.Timestamp). -/
+def decDateCell : PyVal → Option DateCell
+  | .list [.str "c", .int y, .int mo, .int d, .int h, .int mi, .int s, .int us, .int off] =>
+    if y < 0 || mo < 0 || d < 0 || h < 0 || mi < 0 || s < 0 || us < 0 then none
+    else some (.civil ⟨y.toNat, mo.toNat, d.toNat, h.toNat, mi.toNat, s.toNat, us.toNat⟩ off)
+  | .list [.str "u", .str u, .int n] => (decUnit u).map (fun u => .ticks u n)
+  | .list [.str "p", .str u, .int n] => (decUnit u).map (fun u => .stamp u n)
+  | _ => none
+
+/-- The profile the implementation holds for one side of a cut: `DataFrame.profile` of that side, i.e. the fold of
+`from_dataframe` over its batches (one batch unless the side is above the batch size); a side without rows has
+no column profile and `TableProfile.__add__` puts the empty stand-in there, which is the profile of `[]`. -/
+def sideProf {α : Type} [DecidableEq α] (prof : List (Option α) → Prof α) (xs : List (Option α)) : Prof α :=
+  (batchedProf prof Gen.Profile.batchSize xs).getD (prof xs)
+
 def handle (op : String) (args : List PyVal) : Option (List PyVal) :=
   match op, args with
+  | "profilecells", [.list vals, .list table] => do
+    -- DateProfiler from the cells: the conversion to epoch seconds (chains regenerated from the source), then
+    -- the temporal profile of the seconds; a value missing from the hash table hashes to 0 (the harness compares
+    -- the seconds first)
+    let cells ← decCol decDateCell vals
+    let t ← decTable decInt table
+    match dateSeconds cells with
+    | .error e => pure [.str "raised", .str e]
+    | .ok secs => pure ([.str "ok", .list (secs.map encOptInt)] ++ encProf (fun i => .int i) (profileTemporal (intOps t) secs))
   | "profile", [.str "numeric", .list vals, .list table] => do
     let xs ← decCol decRat vals
     let t ← decTable decRat table
@@ -119,23 +149,23 @@ def handle (op : String) (args : List PyVal) : Option (List PyVal) :=
     let xb ← decCol decRat vb
     let t ← decTable decRat table
     if !covered t xa || !covered t xb then none
-    pure (encProf encRat (addProf (profileNumeric (ratOps t) xa) (profileNumeric (ratOps t) xb)))
+    pure (encProf encRat (addProf (sideProf (profileNumeric (ratOps t)) xa) (sideProf (profileNumeric (ratOps t)) xb)))
   | "sum", [.str "temporal", .list va, .list vb, .list table] => do
     let xa ← decCol decInt va
     let xb ← decCol decInt vb
     let t ← decTable decInt table
     if !covered t xa || !covered t xb then none
-    pure (encProf (fun i => .int i) (addProf (profileTemporal (intOps t) xa) (profileTemporal (intOps t) xb)))
+    pure (encProf (fun i => .int i) (addProf (sideProf (profileTemporal (intOps t)) xa) (sideProf (profileTemporal (intOps t)) xb)))
   | "sum", [.str "text", .list va, .list vb, .list table] => do
     let xa ← decCol decStr va
     let xb ← decCol decStr vb
     let t ← decTable decStr table
     if !covered t xa || !covered t xb then none
-    pure (encProf (fun s => .str s) (addProf (profileText (strOps t) cutText xa) (profileText (strOps t) cutText xb)))
+    pure (encProf (fun s => .str s) (addProf (sideProf (profileText (strOps t) cutText) xa) (sideProf (profileText (strOps t) cutText) xb)))
   | "sum", [.str "boolean", .list va, .list vb, .list []] => do
     let xa ← decCol decBool va
     let xb ← decCol decBool vb
-    pure (encProf (fun b => .bool b) (addProf (profileBoolean xa) (profileBoolean xb)))
+    pure (encProf (fun b => .bool b) (addProf (sideProf profileBoolean xa) (sideProf profileBoolean xb)))
   | "batchedfull", [.str "numeric", n, .list vals, .list table] => do
     let n ← decBatch n
     let xs ← decCol decRat vals
